@@ -234,6 +234,30 @@ func checkCase(c micCase) evid.Outcome {
 			}
 			q = lorawan.PHYPayload{MHDR: q.MHDR, MACPayload: &mp, MIC: q.MIC}
 		}
+		// a server that does not know yet which session the frame belongs to tries candidates on the received value
+		// first - another device's keys, the next frame-counter epoch; each answer is exactly "is the specification MIC
+		// under these parameters the one the frame carries" - and then the right ones
+		validate := func(d *micCase) (bool, error) {
+			q.MACPayload.(*lorawan.MACPayload).FHDR.FCnt = d.F.FCnt
+			if up {
+				return q.ValidateUplinkDataMIC(ver(d.V11), d.ConfFCnt, d.TxDR, d.TxCh, gen.LibKey(toKey(d.FNwk)), gen.LibKey(toKey(d.SNwk)))
+			}
+			return q.ValidateDownlinkDataMIC(ver(d.V11), d.ConfFCnt, gen.LibKey(toKey(d.SNwk)))
+		}
+		if c.F.FCnt&4 == 4 {
+			other := c
+			other.FNwk, other.SNwk = append(evid.Hex{}, c.FNwk...), append(evid.Hex{}, c.SNwk...)
+			other.FNwk[3] ^= 0x10
+			other.SNwk[12] ^= 0x01
+			epoch := c
+			epoch.F.FCnt = c.F.FCnt + 1<<16
+			for _, d := range []*micCase{&other, &epoch} {
+				exp := refMIC(d) == want
+				if got, err := validate(d); err != nil || got != exp {
+					return evid.Fail("the frame %x decoded from the wire, validated for a candidate session (keys %x / %x, FCnt %#x): answer %v (err %v), the specification MIC under these parameters is %x, the frame carries %x", g.Encode(), []byte(d.FNwk), []byte(d.SNwk), d.F.FCnt, got, err, refMIC(d), want[:])
+				}
+			}
+		}
 		q.MACPayload.(*lorawan.MACPayload).FHDR.FCnt = c.F.FCnt
 		var ok bool
 		if up {
@@ -242,7 +266,7 @@ func checkCase(c micCase) evid.Outcome {
 			ok, err = q.ValidateDownlinkDataMIC(ver(c.V11), c.ConfFCnt, gen.LibKey(toKey(c.SNwk)))
 		}
 		if err != nil || !ok {
-			return evid.Fail("the frame %x decoded from the wire carries the specification MIC %x but validation answers %v (err %v)", g.Encode(), want[:], ok, err)
+			return evid.Fail("the frame %x decoded from the wire carries the specification MIC %x but validation answers %v (err %v)%s", g.Encode(), want[:], ok, err, map[bool]string{true: " - after the same decoded value was validated for two candidate sessions (other keys, next FCnt epoch) that do not match", false: ""}[c.F.FCnt&4 == 4])
 		}
 	}
 	if up {
@@ -336,6 +360,6 @@ func TestProp(t *testing.T) {
 	r := evid.Begin(t, "C02")
 	defer r.Finish()
 	evid.Rapid(r, t, "data-mic",
-		"rapid: data frames of the four data MTypes (MHDR|MACPayload <= 255 bytes) x random keys (FNwkSIntKey = or != SNwkSIntKey) x MAC version x boundary-biased 32-bit FCnt and ConfFCnt x txDR x txCh; oracle: B0/B1 + own AES-CMAC (RFC 4493 vectors self-checked) over the wire model's serialisation. Checks: Set == reference; Validate true on it, false on single-bit MIC changes; a Set* refused for an edit that is then taken back leaves the MIC the frame carried; a frame received in a loop (value kept while its variable decodes the next frame) validates, and so does one whose MACPayload part was decoded into a MACPayload value that decoded an all-flags frame with 15 FOpts bytes before; ValidateUplinkDataMICF <=> cmacF half; 4-10 single-input perturbations per case (keys, any FCnt bit, +2^16, DevAddr, confirmed/unconfirmed, direction, payload byte, FPort, flags, ACK, ConfFCnt low/high bits, +k*2^16, txDR, txCh, version) and the opposite direction's validator with a shared key, where validation of the original MIC must answer exactly whether the reference MIC is unchanged. Non-trivial: message longer than one AES block and (FCnt >= 2^16 or ACK with ConfFCnt != 0).",
+		"rapid: data frames of the four data MTypes (MHDR|MACPayload <= 255 bytes) x random keys (FNwkSIntKey = or != SNwkSIntKey) x MAC version x boundary-biased 32-bit FCnt and ConfFCnt x txDR x txCh; oracle: B0/B1 + own AES-CMAC (RFC 4493 vectors self-checked) over the wire model's serialisation. Checks: Set == reference; Validate true on it, false on single-bit MIC changes; a Set* refused for an edit that is then taken back leaves the MIC the frame carried; a frame received in a loop (value kept while its variable decodes the next frame) validates - half of the time after the decoded value was validated for two candidate sessions (other keys, next FCnt epoch) with the exact reference answer -, and so does one whose MACPayload part was decoded into a MACPayload value that decoded an all-flags frame with 15 FOpts bytes before; ValidateUplinkDataMICF <=> cmacF half; 4-10 single-input perturbations per case (keys, any FCnt bit, +2^16, DevAddr, confirmed/unconfirmed, direction, payload byte, FPort, flags, ACK, ConfFCnt low/high bits, +k*2^16, txDR, txCh, version) and the opposite direction's validator with a shared key, where validation of the original MIC must answer exactly whether the reference MIC is unchanged. Non-trivial: message longer than one AES block and (FCnt >= 2^16 or ACK with ConfFCnt != 0).",
 		60000, 3000000, genCase, checkCase)
 }
